@@ -461,3 +461,15 @@ mod tests {
         assert_eq!(short_writer.buf.len(), repeats * 50 + 100);
     }
 }
+
+#[cfg(feature = "verif_hooks")]
+impl DecodeBuffer {
+    /// Read-only view of the underlying ring buffer for the verification harness.
+    pub fn verif_ring(&self) -> &RingBuffer {
+        &self.buffer
+    }
+    /// Read-only view of the running output counter for the verification harness.
+    pub fn verif_total_output_counter(&self) -> u64 {
+        self.total_output_counter
+    }
+}
